@@ -18,7 +18,7 @@ fn vals() -> Vec<u64> {
 }
 
 fn ns(thorough: bool) -> Vec<usize> {
-    let mut ns: Vec<usize> = (0..=if thorough { 20_000 } else { 2_500 }).collect();
+    let mut ns: Vec<usize> = (0..=if thorough { 60_000 } else { 2_500 }).collect();
     for k in 0..40 {
         let p = 1usize << k;
         ns.extend([p.saturating_sub(1), p, p + 1]);
